@@ -232,8 +232,10 @@ def run_shard(ctx):
     values = ['']
     for n in range(1, maxlen + 1):
         values += [''.join(p) for p in itertools.product(ALPHA, repeat=n)]
+    # line ends and control characters inside a literal are content, not layout
+    values += ['\r', '\n', '\r\n', 'a\r\nb', 'a\rb', 'a\nb', '\r\n\r\n', ' \r', '\t', 'a\tb', '\x0b', '\x0c', 'a\x1fb', '\x7f', '\u2028', '\u00a0', 'e\u0301', '\ufeffa']
     r = ctx.sub_rng('unicode-values')
-    pool = ALPHA * 3 + ['b', 'Z', '0', ';', ':', '-', '/', '*', '\n', '\t', '漢', '🙂', 'ß', '.', ',', '(', ')', '`', '@', '?']
+    pool = ALPHA * 3 + ['b', 'Z', '0', ';', ':', '-', '/', '*', '\n', '\t', '\r', '漢', '🙂', 'ß', '.', ',', '(', ')', '`', '@', '?']
     for _ in range(400 if tier == 'quick' else 4000):
         values.append(''.join(r.choice(pool) for _ in range(r.randint(3, 40 if r.random() < 0.2 else 8))))
     positions = list(STR_POSITIONS)
@@ -305,7 +307,11 @@ def run_shard(ctx):
     # ---- numbers -------------------------------------------------------------------------------
     rn = ctx.sub_rng('numbers')
     nums = ['0', '1', '7', '10', '007', '000', '2147483648', '9223372036854775808', '123456789012345678901234567890',
-            '0.5', '1.0', '3.14', '00.50', '10.250', '123456789.123456789', '0.000001', '99999999999999999999.5']
+            '0.5', '1.0', '3.14', '00.50', '10.250', '123456789.123456789', '0.000001', '99999999999999999999.5',
+            # decimals whose float needs 17 significant digits; magnitudes Python writes with an exponent
+            '0.30000000000000004', '1.0000000000000002', '123456.78901234567', '0.1234567890123456789', '9007199254740993.0',
+            '0.00001', '0.0000001', '0.000000000000001234', '10000000000000000.0', '123456789012345678901234.5', '1' + '0' * 40 + '.0',
+            '0.' + '0' * 30 + '7', '4.9406564584124654', '2.2250738585072014', '179769313486231570000.0', '0.1', '0.2', '0.7', '1.1', '2.675']
     for _ in range(150 if tier == 'quick' else 1500):
         d = rn.randint(1, 30)
         s = ''.join(rn.choice('0123456789') for _ in range(d))
@@ -359,6 +365,22 @@ def run_shard(ctx):
                             sig = {'direction': 'print', 'kind': 'integer' if isint else 'decimal', 'failure': 'printed-denotes-other-value',
                                    'feat': 'long' if len(s) > 18 else 'plain'}
                             det = {'value': repr(exp), 'printed': txt}
+                        else:
+                            # ... and the library itself must read the printed text back as that number
+                            acc.count('number_readbacks')
+                            try:
+                                n2 = parse_sql('SELECT ' + txt + ' FROM t', dialect).targets[0]
+                                if type(n2).__name__ == 'UnaryOperation' and type(n2.args[0]).__name__ == 'Constant':
+                                    v2 = -n2.args[0].value
+                                else:
+                                    v2 = n2.value if type(n2).__name__ == 'Constant' else ('not-a-constant', type(n2).__name__)
+                                okr = (type(v2) is type(exp) and v2 == exp)
+                            except Exception as e2:
+                                v2, okr = 'rejected:' + type(e2).__name__, False
+                            if not okr:
+                                sig = {'direction': 'print', 'kind': 'integer' if isint else 'decimal', 'failure': 'printed-not-read-back',
+                                       'feat': ('exponent' if 'e' in repr(exp) else 'plain') + ('+long' if len(s) > 18 else '')}
+                                det = {'value': repr(exp), 'printed': txt, 'read_back': repr(v2)[:80], 'dialect': dialect}
                 except Exception as e:
                     sig = {'direction': 'parse', 'kind': 'integer' if isint else 'decimal', 'failure': 'rejected:' + type(e).__name__,
                            'feat': ('neg+' if neg else '') + ('leading-zero' if s.startswith('0') and len(s) > 1 else 'plain'),
@@ -373,7 +395,7 @@ def run_shard(ctx):
 
 PART_POOL = ['a', 'Tbl', 'mixedCase', 'x_y', '_u', 'col1', '1st', '9', '007', 'my col', 'a-b', 'a.b', 'é', 'Ünï', 'select', 'FROM',
              'Order', 'group by', 'primary_key', 'last', 'LATEST', 'a b.c d', '$x', 'a$1', 'x y z', '.', 'a.', '.a', 'status', 'Table',
-             'a ', ' a', ' a b ', 'Sheet1 ', '  ', 'STRASSE', 'straße', 'FI', 'ﬁ', 'ſ', 'S', 'İ', 'i̇']
+             'a ', ' a', ' a b ', 'Sheet1 ', '  ', 'STRASSE', 'straße', 'FI', 'ﬁ', 'ſ', 'S', 'İ', 'i̇', 'a\rb', 'a\r\nb', 'a\nb', 'a\tb', '\r']
 
 # names that some case mapping / normalisation identifies with one another although they are different names
 # (upper(): ß -> SS, ﬁ -> FI, ſ -> S; lower(): İ -> i̇, K (kelvin) -> k): checked in both orders inside one process,
